@@ -450,4 +450,69 @@ theorem tot_reconstruct (s : State) (hok : ElemsOk s.dom s.openElems) (hhead : H
         unfold SameTB at hS2
         rw [hS3, hS2]
 
+/-! ### which entries are re-created -/
+section Suffix
+variable {N T : Type} [DecidableEq N]
+
+/-- number of entries directly before position `i` that are neither markers nor open -/
+def trailing (stack : List (Elem N)) (list : List (Entry N T)) (i : Nat) : Nat :=
+  ((list.take i).reverse.takeWhile fun e => !markerOrOpen stack e).length
+
+theorem trailing_le (stack : List (Elem N)) (list : List (Entry N T)) (i : Nat) : trailing stack list i ≤ i := by
+  unfold trailing
+  have h1 : ((list.take i).reverse.takeWhile fun e => !markerOrOpen stack e).length ≤ (list.take i).reverse.length :=
+    (List.takeWhile_sublist _).length_le
+  have h2 : (list.take i).reverse.length ≤ i := by simp [List.length_take]; omega
+  omega
+
+theorem trailing_succ (stack : List (Elem N)) (list : List (Entry N T)) (i : Nat) (hi : i < list.length) :
+    trailing stack list (i + 1) = if (list[i]?).any (markerOrOpen stack) then 0 else trailing stack list i + 1 := by
+  unfold trailing
+  have : list.take (i + 1) = list.take i ++ [list[i]] := by
+    rw [List.take_add_one, List.getElem?_eq_getElem hi]; rfl
+  rw [this, List.reverse_append, List.getElem?_eq_getElem hi]
+  simp only [List.reverse_cons, List.reverse_nil, List.nil_append, List.singleton_append, List.takeWhile_cons, Option.any_some]
+  by_cases hm : markerOrOpen stack list[i] = true
+  · simp [hm]
+  · have hm' : markerOrOpen stack list[i] = false := by simpa using hm
+    simp [hm']
+
+theorem rewind_eq (stack : List (Elem N)) (list : List (Entry N T)) : ∀ i, i ≤ list.length →
+    Spec.TreeAlgo2.reconstructRewind stack list i = i - trailing stack list i := by
+  intro i
+  induction i with
+  | zero => intro _; simp [Spec.TreeAlgo2.reconstructRewind]
+  | succ i ih =>
+    intro hi
+    unfold Spec.TreeAlgo2.reconstructRewind
+    rw [trailing_succ stack list i (by omega)]
+    by_cases h : (list[i]?).any (markerOrOpen stack) = true
+    · simp [h]
+    · simp only [h, Bool.false_eq_true, if_false]
+      rw [ih (by omega)]
+      have := trailing_le stack list i
+      omega
+
+/-- the entries re-created by "reconstruct the active formatting elements" are exactly the longest
+suffix of the list without markers and open elements -/
+theorem reconstruct_suffix (stack : List (Elem N)) (list : List (Entry N T)) (last : Entry N T)
+    (hl : list.getLast? = some last) (hm : markerOrOpen stack last = false) :
+    list.length - Spec.TreeAlgo2.reconstructRewind stack list (list.length - 1) = reconstructSuffixLength stack list := by
+  have hlen : 0 < list.length := by
+    cases list with
+    | nil => simp at hl
+    | cons a r => simp
+  have hidx : list[list.length - 1]? = some last := by rw [← List.getLast?_eq_getElem?]; exact hl
+  rw [rewind_eq stack list _ (by omega)]
+  have h1 := trailing_succ stack list (list.length - 1) (by omega)
+  rw [hidx] at h1
+  simp only [Option.any_some, hm, Bool.false_eq_true, if_false] at h1
+  have h2 : list.length - 1 + 1 = list.length := by omega
+  rw [h2] at h1
+  have h3 : trailing stack list list.length = reconstructSuffixLength stack list := by
+    unfold trailing reconstructSuffixLength; rw [List.take_length]
+  have := trailing_le stack list (list.length - 1)
+  rw [← h3, h1]; omega
+end Suffix
+
 end H5V.Lemmas.HtmlTBAlgo
